@@ -72,14 +72,14 @@ func refPaths(st *types.Struct, prefix string, depth int, out *[]string) {
 
 // replaceOnly: cache fields that Copy aliases on purpose; they are only ever replaced whole (checked module-wide).
 var replaceOnly = map[string]string{
-	"NeoCache.nextValidators":           "a new slice is built every time the validators are recomputed",
-	"NeoCache.newEpochNextValidators":   "a new slice is built every time the validators are recomputed",
-	"NeoCache.committee":                "a new slice is built every time the committee is recomputed",
-	"NeoCache.newEpochCommittee":        "a new slice is built every time the committee is recomputed",
-	"DesignationCache.oracles.nodes":    "role data is replaced whole by updateCachedRoleData",
-	"DesignationCache.stateVals.nodes":  "role data is replaced whole by updateCachedRoleData",
+	"NeoCache.nextValidators":              "a new slice is built every time the validators are recomputed",
+	"NeoCache.newEpochNextValidators":      "a new slice is built every time the validators are recomputed",
+	"NeoCache.committee":                   "a new slice is built every time the committee is recomputed",
+	"NeoCache.newEpochCommittee":           "a new slice is built every time the committee is recomputed",
+	"DesignationCache.oracles.nodes":       "role data is replaced whole by updateCachedRoleData",
+	"DesignationCache.stateVals.nodes":     "role data is replaced whole by updateCachedRoleData",
 	"DesignationCache.neofsAlphabet.nodes": "role data is replaced whole by updateCachedRoleData",
-	"DesignationCache.notaries.nodes":   "role data is replaced whole by updateCachedRoleData",
+	"DesignationCache.notaries.nodes":      "role data is replaced whole by updateCachedRoleData",
 }
 
 func ruleCacheCopy(c *Ctx) {
@@ -997,12 +997,12 @@ func literalFields(fd *FuncDecl, rel, typeName string) map[string]bool {
 
 // derivedFields: cache fields that are not read back from storage, one reason each.
 var derivedFields = map[string]string{
-	"PolicyCache.faunInitialized":        "set by fillCacheFromDAO from the hardfork state",
-	"PolicyCache.maxVerificationGas":     "constant default, not configurable through storage",
-	"DesignationCache.rolesChangedFlag":  "per-block notification flag, false at start",
-	"PolicyCache.msPerBlock":             "filled only when the Echidna storage record exists",
-	"PolicyCache.maxVUBIncrement":        "filled only when the Echidna storage record exists",
-	"PolicyCache.maxTraceableBlocks":     "filled only when the Echidna storage record exists",
+	"PolicyCache.faunInitialized":       "set by fillCacheFromDAO from the hardfork state",
+	"PolicyCache.maxVerificationGas":    "constant default, not configurable through storage",
+	"DesignationCache.rolesChangedFlag": "per-block notification flag, false at start",
+	"PolicyCache.msPerBlock":            "filled only when the Echidna storage record exists",
+	"PolicyCache.maxVUBIncrement":       "filled only when the Echidna storage record exists",
+	"PolicyCache.maxTraceableBlocks":    "filled only when the Echidna storage record exists",
 }
 
 // startsSet: in-memory dirty flags that have no storage record; the rebuilt cache must start with them raised,
